@@ -22,6 +22,16 @@ import (
 
 var Cancelled = errors.New("transaction cancelled")
 
+// What the CONNECT transaction is waiting for.
+type connectState int
+
+const (
+	awaitingAuth connectState = iota
+	awaitingWillTopic
+	awaitingWillMsg
+	awaitingConnack
+)
+
 type connectTransaction struct {
 	*transactions.TimedTransaction
 	handler       *handler1
@@ -29,6 +39,7 @@ type connectTransaction struct {
 	authEnabled   bool
 	mqConnect     *mqPkts.ConnectPacket
 	authenticated bool
+	state         connectState
 }
 
 func newConnectTransaction(ctx context.Context, h *handler1, authEnabled bool, mqConnect *mqPkts.ConnectPacket) *connectTransaction {
@@ -69,20 +80,27 @@ func (t *connectTransaction) Start(ctx context.Context) error {
 
 	if t.authEnabled {
 		t.log.Debug("Waiting for AUTH packet.")
+		t.state = awaitingAuth
 		return nil
 	}
 
 	if t.mqConnect.WillFlag {
 		// Continue with WILLTOPICREQ.
+		t.state = awaitingWillTopic
 		return t.handler.snSend(snPkts1.NewWillTopicReq())
 	}
 
+	t.state = awaitingConnack
 	return t.handler.mqttSend(t.mqConnect)
 }
 
 func (t *connectTransaction) Auth(snPkt *snPkts1.Auth) error {
 	// Extract username and password from PLAIN data.
 	if snPkt.Method == snPkts1.AUTH_PLAIN {
+		if t.state != awaitingAuth {
+			t.log.Debug("Unexpected packet in %d: %v", t.state, snPkt)
+			return nil
+		}
 		user, password, err := snPkt.DecodePlain()
 		if err != nil {
 			t.Fail(err)
@@ -92,6 +110,7 @@ func (t *connectTransaction) Auth(snPkt *snPkts1.Auth) error {
 		t.mqConnect.Username = user
 		t.mqConnect.PasswordFlag = true
 		t.mqConnect.Password = password
+		t.authenticated = true
 	} else {
 		if err := t.SendConnack(snPkts1.RC_NOT_SUPPORTED); err != nil {
 			return err
@@ -103,26 +122,40 @@ func (t *connectTransaction) Auth(snPkt *snPkts1.Auth) error {
 
 	if t.mqConnect.WillFlag {
 		// Continue with WILLTOPICREQ.
+		t.state = awaitingWillTopic
 		return t.handler.snSend(snPkts1.NewWillTopicReq())
 	}
 
 	// All information successfully gathered - send MQTT connect.
+	t.state = awaitingConnack
 	return t.handler.mqttSend(t.mqConnect)
 }
 
 func (t *connectTransaction) WillTopic(snWillTopic *snPkts1.WillTopic) error {
+	if t.state != awaitingWillTopic {
+		t.log.Debug("Unexpected packet in %d: %v", t.state, snWillTopic)
+		return nil
+	}
+
 	t.mqConnect.WillQos = snWillTopic.QOS
 	t.mqConnect.WillRetain = snWillTopic.Retain
 	t.mqConnect.WillTopic = snWillTopic.WillTopic
 
 	// Continue with WILLMSGREQ.
+	t.state = awaitingWillMsg
 	return t.handler.snSend(snPkts1.NewWillMsgReq())
 }
 
 func (t *connectTransaction) WillMsg(snWillMsg *snPkts1.WillMsg) error {
+	if t.state != awaitingWillMsg {
+		t.log.Debug("Unexpected packet in %d: %v", t.state, snWillMsg)
+		return nil
+	}
+
 	t.mqConnect.WillMessage = snWillMsg.WillMsg
 
 	// All information successfully gathered - send MQTT connect.
+	t.state = awaitingConnack
 	return t.handler.mqttSend(t.mqConnect)
 }
 
